@@ -189,6 +189,12 @@ class PipeSim(object):
             elif f == 'aout_missing_source':
                 outs.append({'source': 'task:///never_written.%d' % i,
                              'target': 'pilot:///o.%d' % i, 'action': rp.COPY})
+            elif f == 'ain_missing_link':
+                ins.append({'source': 'pilot:///missing.%d' % i, 'target': 'task:///l.dat',
+                            'action': rp.LINK})
+            elif f == 'aout_missing_link':
+                outs.append({'source': 'task:///never_written.%d' % i,
+                             'target': 'pilot:///ol.%d' % i, 'action': rp.LINK})
             elif f == 'tout_missing_source':
                 outs.append({'source': 'task:///never_written.%d' % i,
                              'target': 'client:///o.%d' % i, 'action': rp.TRANSFER})
